@@ -540,17 +540,27 @@ impl<'a> Gen<'a> {
                     AutosarVersion::from_str(self.rng.pick(VERSIONS)).unwrap()
                 };
                 let mut bytes = self.make_document(ver, Some(ms)).into_bytes();
+                let mut lenient = self.permille(300);
                 if self.permille(self.prof.load_fault_permille) && !bytes.is_empty() {
-                    if self.rng.chance(1, 2) {
-                        let k = self.rng.below(bytes.len());
-                        bytes.truncate(k);
-                    } else {
-                        let k = self.rng.below(bytes.len());
-                        bytes[k] = self.rng.pick(&[b'<', b'>', b'&', b'"', b'/', b' ', b'X', 0xff, 0]);
+                    match self.rng.below(3) {
+                        0 => {
+                            let k = self.rng.below(bytes.len());
+                            bytes.truncate(k);
+                        }
+                        1 => {
+                            let k = self.rng.below(bytes.len());
+                            bytes[k] = self.rng.pick(&[b'<', b'>', b'&', b'"', b'/', b' ', b'X', 0xff, 0]);
+                        }
+                        _ => {
+                            // a recoverable defect: the document still loads leniently, with warnings, into an odd model
+                            let text = String::from_utf8_lossy(&bytes).to_string();
+                            bytes = self.defect_document(&text).into_bytes();
+                            lenient = !self.permille(150);
+                        }
                     }
                 }
                 let name = self.rng.pick(FILE_NAMES).to_string();
-                Some(Op::new(K::MLoadBuffer, *mh).s(&name).flag(!self.permille(300)).bytes(&bytes))
+                Some(Op::new(K::MLoadBuffer, *mh).s(&name).flag(!lenient).bytes(&bytes))
             }
             K::MRemoveFile => {
                 let (mh, _) = self.pick_model()?;
@@ -900,6 +910,65 @@ impl<'a> Gen<'a> {
             Some((mh, _)) => Op::new(K::MRoot, *mh),
             None => Op::new(K::MNew, H::default()),
         }
+    }
+
+    /// one recoverable defect (unknown / version-foreign / misplaced / repeated / missing parts) in a valid document
+    pub fn defect_document(&mut self, text: &str) -> String {
+        let lines: Vec<&str> = text.lines().collect();
+        let pick_line = |rng: &mut Rng, pred: &dyn Fn(&str) -> bool| -> Option<usize> {
+            let idx: Vec<usize> = lines.iter().enumerate().filter(|(_, l)| pred(l)).map(|(i, _)| i).collect();
+            if idx.is_empty() { None } else { Some(rng.pick(&idx)) }
+        };
+        let mut out: Vec<String> = lines.iter().map(|l| l.to_string()).collect();
+        match self.rng.below(7) {
+            0 => {
+                // the header claims another (older or newer) version: content becomes version-foreign
+                let v = self.rng.pick(VERSIONS);
+                for l in out.iter_mut() {
+                    if let Some(p) = l.find("AUTOSAR_") {
+                        if let Some(q) = l[p..].find(".xsd") {
+                            l.replace_range(p..p + q + 4, v);
+                            break;
+                        }
+                    }
+                }
+            }
+            1 => {
+                if let Some(i) = pick_line(self.rng, &|l| l.trim_start().starts_with("<SHORT-NAME>")) {
+                    out.remove(i);
+                }
+            }
+            2 => {
+                if let Some(i) = pick_line(self.rng, &|l| l.trim_start().starts_with("<SHORT-NAME>")) {
+                    let l = out[i].clone();
+                    out.insert(i, l);
+                }
+            }
+            3 => {
+                if let Some(i) = pick_line(self.rng, &|l| l.trim_end().ends_with('>') && !l.contains("</") && !l.contains("<?") && !l.contains("/>") && !l.contains("<AUTOSAR")) {
+                    let l = out[i].clone();
+                    out[i] = format!("{} BOGUS=\"1\">", &l[..l.len() - 1]);
+                }
+            }
+            4 => {
+                if let Some(i) = pick_line(self.rng, &|l| l.contains("DEST=\"")) {
+                    out[i] = out[i].replacen("DEST=\"", "DEST=\"X-", 1);
+                }
+            }
+            5 => {
+                // an element that is valid somewhere else, at a place where it is not allowed
+                if let Some(i) = pick_line(self.rng, &|l| l.trim() == "<ELEMENTS>") {
+                    out.insert(i + 1, "<CONTAINERS/>".to_string());
+                }
+            }
+            _ => {
+                // character data where none is allowed
+                if let Some(i) = pick_line(self.rng, &|l| l.trim() == "<ELEMENTS>" || l.trim() == "<AR-PACKAGES>") {
+                    out.insert(i + 1, "stray text".to_string());
+                }
+            }
+        }
+        out.join("\n")
     }
 
     /// a valid document of the given version, built with the API in a scratch model; shares names with `like` so that merges happen
